@@ -1,4 +1,124 @@
 import Model
+import Proofs.C17
+
+/-
+  C17 — typed accessors classify every JSON value correctly and never crash.
+  The accessors return `Except Obj.Err _` (no `Panic` constructor is reachable: they are total
+  functions with no partial operation), so "never panics" holds by construction; the theorems
+  below say that the classification is exact.  Property theorems only; helper lemmas live in
+  Proofs/C17.lean.
+-/
+
 namespace C17
-theorem placeholder : True := trivial
+open Obj
+
+/-- `n` is exactly the value of the finite double `bits` (`± m · 2^e` with `m, e` read off the
+    bit pattern); `-0` denotes 0. -/
+def Denotes (bits n : Nat) : Prop :=
+  ∃ neg m e, F64.dyadic bits = some (neg, m, e) ∧
+    ((m = 0 ∧ n = 0) ∨
+     (m ≠ 0 ∧ neg = false ∧ ((0 ≤ e ∧ n = m * 2 ^ e.toNat) ∨ (e < 0 ∧ n * 2 ^ (-e).toNat = m))))
+
+/-- The integer read off a double is its exact value, and exists iff the value is a natural. -/
+theorem toNat_exact (bits n : Nat) : F64.toNat? bits = some n ↔ Denotes bits n := by
+  exact C17L.toNat_exact bits n
+
+/-- (1) `GetNumber` returns `n` iff the value at the key is a number whose exact value is the
+    natural number `n < 2^64`; never a different number. -/
+theorem getNumber_exact (o : List (Str × JVal)) (k : Str) (n : Nat) :
+    getNumber o k = .ok n ↔ ∃ bits, lookup o k = some (.num bits) ∧ Denotes bits n ∧ n < 2 ^ 64 := by
+  exact C17L.getNumber_exact o k n
+
+/-- Every accessor reports `absent` exactly for a missing key or `null` … -/
+theorem getAny_absent (o : List (Str × JVal)) (k : Str) :
+    getAny o k = .error .absent ↔ (lookup o k = none ∨ lookup o k = some .null) := by
+  exact C17L.getAny_absent o k
+
+/-- … `GetAny` never reports a wrong type and otherwise returns the stored value unchanged. -/
+theorem getAny_ok (o : List (Str × JVal)) (k : Str) (v : JVal) :
+    getAny o k = .ok v ↔ (lookup o k = some v ∧ v ≠ .null) := by
+  exact C17L.getAny_ok o k v
+
+theorem getAny_never_wrong (o : List (Str × JVal)) (k : Str) : getAny o k ≠ .error .wrong := by
+  exact C17L.getAny_never_wrong o k
+
+theorem getNumber_absent (o : List (Str × JVal)) (k : Str) :
+    getNumber o k = .error .absent ↔ (lookup o k = none ∨ lookup o k = some .null) := by
+  exact C17L.getNumber_absent o k
+
+/-- Strings: sanitised and non-empty, or absent (missing, null, empty after sanitising), or
+    wrong type. -/
+theorem getString_ok (o : List (Str × JVal)) (k : Str) (v : Str) :
+    getString o k = .ok v ↔ ∃ s, lookup o k = some (.str s) ∧ v = Ansi.scrub s ∧ v ≠ [] := by
+  exact C17L.getString_ok o k v
+
+theorem getString_absent (o : List (Str × JVal)) (k : Str) :
+    getString o k = .error .absent ↔
+      (lookup o k = none ∨ lookup o k = some .null ∨ ∃ s, lookup o k = some (.str s) ∧ Ansi.scrub s = []) := by
+  exact C17L.getString_absent o k
+
+theorem getString_wrong (o : List (Str × JVal)) (k : Str) :
+    getString o k = .error .wrong ↔
+      ∃ v, lookup o k = some v ∧ v ≠ .null ∧ ∀ s, v ≠ .str s := by
+  exact C17L.getString_wrong o k
+
+/-- A returned string contains no control character other than newline. -/
+theorem getString_sanitised (o : List (Str × JVal)) (k : Str) (v : Str) (h : getString o k = .ok v) :
+    v ≠ [] ∧ ∀ c ∈ v, c = '\n' ∨ Uni.isControl c = false := by
+  exact C17L.getString_sanitised o k v h
+
+/-- Lists: a list is returned as is, any other non-null value is promoted to a one-element
+    list; never a wrong-type report. -/
+theorem getList_ok (o : List (Str × JVal)) (k : Str) (l : List JVal) :
+    getList o k = .ok l ↔
+      ((lookup o k = some (.arr l)) ∨
+       (∃ v, lookup o k = some v ∧ v ≠ .null ∧ (∀ xs, v ≠ .arr xs) ∧ l = [v])) := by
+  exact C17L.getList_ok o k l
+
+theorem getObject_ok (o : List (Str × JVal)) (k : Str) (kvs : List (Str × JVal)) :
+    getObject o k = .ok kvs ↔ lookup o k = some (.obj kvs) := by
+  exact C17L.getObject_ok o k kvs
+
+theorem getObject_wrong (o : List (Str × JVal)) (k : Str) :
+    getObject o k = .error .wrong ↔ ∃ v, lookup o k = some v ∧ v ≠ .null ∧ ∀ kvs, v ≠ .obj kvs := by
+  exact C17L.getObject_wrong o k
+
+/-- Parsed accessors: exactly the string accessor followed by the parser. -/
+theorem getMediaType_spec (o : List (Str × JVal)) (k : Str) :
+    getMediaType o k =
+      match getString o k with
+      | .error e => .error e
+      | .ok s => match Mime.parse s with
+        | some m => .ok m
+        | none => .error .wrong := by
+  rfl
+
+theorem getTime_spec {Time Url : Type} (L : Libs Time Url) (o : List (Str × JVal)) (k : Str) (t : Time) :
+    getTime L o k = .ok t ↔ ∃ s, getString o k = .ok s ∧ L.parseTime s = some t := by
+  exact C17L.getTime_spec L o k t
+
+theorem getURL_spec {Time Url : Type} (L : Libs Time Url) (o : List (Str × JVal)) (k : Str) (u : Url) :
+    getURL L o k = .ok u ↔ ∃ s, getString o k = .ok s ∧ L.parseUrl s = some u := by
+  exact C17L.getURL_spec L o k u
+
+/-- Media types: a successful parse returns the maximal token runs around the first `/`, and
+    the essence is `supertype/subtype`. -/
+theorem mime_parse_spec (s : Str) (m : Mime.MediaType) (h : Mime.parse s = some m) :
+    m.essence = m.supertype ++ '/' :: m.subtype ∧ m.supertype ≠ [] ∧ m.subtype ≠ [] ∧
+    (∀ c ∈ m.supertype, Mime.isTok c = true) ∧ (∀ c ∈ m.subtype, Mime.isTok c = true) ∧
+    ∃ rest, s = m.essence ++ rest ∧ (∀ c, rest.head? = some c → Mime.isTok c = false) := by
+  exact C17L.mime_parse_spec s m h
+
+/-! ### Non-vacuity: the values the unfixed code got wrong -/
+
+/-- `-5` is not a natural: rejected. -/
+example : getNumber [(['k'], .num 0xC014000000000000)] ['k'] = .error .wrong := by
+  rfl
+/-- `25` is returned exactly. -/
+example : getNumber [(['k'], .num 0x4039000000000000)] ['k'] = .ok 25 := by
+  rfl
+/-- `2^64` (as a double) is out of range. -/
+example : getNumber [(['k'], .num 0x43F0000000000000)] ['k'] = .error .wrong := by
+  rfl
+
 end C17
